@@ -166,7 +166,13 @@ BCVerdict(r) ==
            entries == T.bc.items
            kindOf(s) == IF s.bc = "*" THEN "REFLECTION" ELSE "COSINUS"
            witOf(n) == { T.wit[i] : i \in { j \in 1..Len(T.wit) : T.wit[j].id = n } }
-           match(e, s) == e.kind = kindOf(s) /\ \E w \in witOf(e.id) : Proportional(w, MainQuad(D, s))
+           surfIds == { T.surfs[i].id : i \in 1..Len(T.surfs) }
+           (* the entry designates the flagged surface itself when its number is written in the file (the volumes  *)
+           (* of the cells it bounds name that number); only a surface merged away by the de-duplication may be   *)
+           (* designated through the identical surface that replaced it                                          *)
+           match(e, s) == /\ e.kind = kindOf(s)
+                          /\ \E w \in witOf(e.id) : Proportional(w, MainQuad(D, s))
+                          /\ (s.n \in surfIds => e.id = s.n)
        IN { <<"entry_missing_or_repeated", s.n>> :
               s \in { x \in bounding : Cardinality({ i \in 1..Len(entries) : match(entries[i], x) }) # 1 } }
           \cup { <<"entry_for_no_flagged_bounding_surface", entries[i].id>> :
